@@ -728,6 +728,7 @@ where
     pin_mut!(job_futures);
     {
         let mut seen: HashSet<RedoPathBuf> = HashSet::new();
+        let mut seen_ids: HashSet<i64> = HashSet::new();
         for i in target_order.iter().copied() {
             let t = targets[i].as_ref();
             if t.is_empty() {
@@ -762,6 +763,10 @@ where
                     .map_err(RedoError::opaque_error)?;
                 ptx.set_drop_behavior(DropBehavior::Commit);
                 let mut f = state::File::from_name(&mut ptx, t, true)?;
+                if !seen_ids.insert(f.id()) {
+                    // Another spelling of a target we have already handled.
+                    continue;
+                }
                 let mut lock = ptx.state().new_lock(f.id().try_into().unwrap());
                 if ptx.state().env().unlocked {
                     lock.force_owned();
